@@ -83,7 +83,8 @@ struct Pump
 	int pauseUs;        // pause between pieces
 	std::string out;    // bytes written back by the server
 	bool keepOpen;      // do not shut down the sending side after the input (not used for C09: the peer always closes)
-	size_t off0;        // input bytes already written (and the sending side shut down) before the pump started
+	size_t off0;        // input bytes already written before the pump started
+	bool preclosed;     // ... and the sending side already shut down
 	static void* run(void* p)
 	{
 		Pump* self = (Pump*)p;
@@ -93,7 +94,7 @@ struct Pump
 	void loop()
 	{
 		size_t off = off0;
-		bool wclosed = off0 >= in->size() && !keepOpen;
+		bool wclosed = preclosed;
 		int fl = fcntl(fd, F_GETFL, 0);
 		fcntl(fd, F_SETFL, fl | O_NONBLOCK);
 		for (;;)
@@ -151,12 +152,14 @@ inline double runStream(HttpServer& server, const std::string& bytes, std::strin
 	pump.pauseUs = pauseUs;
 	pump.keepOpen = false;
 	pump.off0 = 0;
+	pump.preclosed = false;
 	if (piece == 0 && bytes.size() <= 60000)
 	{
 		// deterministic mode: the whole input is in the socket buffer and the peer has closed before the server looks
 		if (!bytes.empty() && send(sv[0], bytes.data(), bytes.size(), MSG_NOSIGNAL) != (ssize_t)bytes.size()) { perror("send"); _exit(2); }
 		shutdown(sv[0], SHUT_WR);
 		pump.off0 = bytes.size();
+		pump.preclosed = true;
 	}
 	pthread_t th;
 	if (pthread_create(&th, 0, Pump::run, &pump) != 0) { perror("pthread_create"); _exit(2); }
